@@ -10,6 +10,7 @@ import (
 	"encoding/binary"
 	"errors"
 	"fmt"
+	"io"
 	"runtime/debug"
 	"sort"
 	"time"
@@ -190,7 +191,7 @@ type Token struct {
 }
 
 // Build creates a token whose authority block is blocks[0] and appends the rest.
-func Build(priv ed25519.PrivateKey, rng *DetRand, blocks []ast.Block, keyID *uint32) (*Token, error) {
+func Build(priv ed25519.PrivateKey, rng io.Reader, blocks []ast.Block, keyID *uint32) (*Token, error) {
 	opts := []any{}
 	_ = opts
 	var bld biscuit.Builder
@@ -218,7 +219,7 @@ func Build(priv ed25519.PrivateKey, rng *DetRand, blocks []ast.Block, keyID *uin
 }
 
 // Append attenuates t with blk (t itself is left alone).
-func (t *Token) Append(rng *DetRand, blk ast.Block) (*Token, error) {
+func (t *Token) Append(rng io.Reader, blk ast.Block) (*Token, error) {
 	bb := t.B.CreateBlock()
 	acc, err := FillBlock(bb, blk)
 	if err != nil {
@@ -232,7 +233,7 @@ func (t *Token) Append(rng *DetRand, blk ast.Block) (*Token, error) {
 	return &Token{B: nb, Blocks: blocks, Pub: t.Pub, Priv: t.Priv, KeyID: t.KeyID, Sealed: false}, nil
 }
 
-func (t *Token) Seal(rng *DetRand) (*Token, error) {
+func (t *Token) Seal(rng io.Reader) (*Token, error) {
 	nb, err := t.B.Seal(rng)
 	if err != nil {
 		return nil, err
